@@ -32,7 +32,8 @@ Definition run_pipe {T : Type} (n : N) (f : Z -> T -> T) (a : T) : option T :=
 Definition model (c : case) : option (list Z) :=
   match fam c with
   | 5%N => match input c with [q] => option_map (fun y => [y]) (run_pipe (arity c) fam5 (q * 4194304)) | _ => None end
-  | 2%N | 3%N => run_pipe (arity c) fam2 (input c)
+  | 2%N => run_pipe (arity c) fam2 (input c)
+  | 3%N => run_pipe (arity c) fam2 (start3 (input c))
   | 4%N =>
       (* the re-entrant stage: the inner call is a call of the same generated definition *)
       match run_pipe (arity c) fam2 [100] with
